@@ -193,3 +193,18 @@ Theorem C11_add_route_never_worsens_best : forall cfg now t e0 t' b d k,
   add_route cfg now t e0 = Ok (t', b) -> reach_le t d k -> reach_le t' d k.
 Proof. exact add_route_best_mono. Qed.
 Print Assumptions C11_add_route_never_worsens_best.
+
+(* ---------- the translated source of CalculateTotals (TranslatedTotals.v) ---------- *)
+(* Gen.go_SwitchPath_CalculateTotals is regenerated from m/switch_label.go on every run: for every
+   path of up to 255 hops with 16-bit hop delays it computes the model's hop count (1 for paths of
+   at most one hop, hops-1 capped at 254) and delay (every hop at least 5, the sum kept when it is
+   0, saturated at 65534) — in particular the sum does not wrap before it is saturated. *)
+From Verif Require Import TranslatedTotals.
+Theorem C11_source_calculate_totals_is_model : forall p old_delay old_hops,
+  (length p <= 255)%nat -> (forall h, In h p -> h_delay h < 65536) ->
+  Gen.go_SwitchPath_CalculateTotals (map hop_triple p) old_delay old_hops = (calc_tdelay p old_delay, calc_thops p).
+Proof. exact go_calc_totals_is_model. Qed.
+Print Assumptions C11_source_calculate_totals_is_model.
+
+Theorem C11_source_totals_translated : Gen.go_SwitchPath_CalculateTotals_translated = true.
+Proof. exact totals_translated. Qed.
